@@ -552,9 +552,12 @@ func main() {
 	// ---- concurrent committers: every schedule (preemption bound 1) of two committers on the synced store gives its
 	// own journal; the first N distinct journals are crash-enumerated
 	if os.Getenv("VERIF_ONLY") == "" || os.Getenv("VERIF_ONLY") == "concurrent2" {
-		maxJournals := 12
+		maxJournals := 100
+		if v := os.Getenv("VERIF_MAXJOURNALS"); v != "" {
+			fmt.Sscanf(v, "%d", &maxJournals)
+		}
 		if c.Thorough() {
-			maxJournals = 200
+			maxJournals = 1000
 		}
 		w := workload{name: "concurrent2", opts: syncedOpts}
 		var cur result
